@@ -648,6 +648,11 @@ func grpcErrorFromTrailer(bufferPool *bufferPool, protobuf Codec, trailer http.H
 	if err != nil {
 		return errorf(CodeInternal, "gRPC protocol error: invalid error code %q", codeHeader)
 	}
+	if code == 0 {
+		// Another spelling of zero (for example, "00"). Zero is the OK status, so
+		// there's no error.
+		return nil
+	}
 	message := grpcPercentDecode(bufferPool, trailer.Get(grpcHeaderMessage))
 	retErr := NewError(Code(code), errors.New(message))
 
@@ -665,7 +670,11 @@ func grpcErrorFromTrailer(bufferPool *bufferPool, protobuf Codec, trailer http.H
 			retErr.details = append(retErr.details, d)
 		}
 		// Prefer the Protobuf-encoded data to the headers (grpc-go does this too).
-		retErr.code = Code(status.Code)
+		// A zero code in the details contradicts the non-zero Grpc-Status header;
+		// errors never carry the OK code, so keep the header's code then.
+		if status.Code != 0 {
+			retErr.code = Code(status.Code)
+		}
 		retErr.err = errors.New(status.Message)
 	}
 
